@@ -560,13 +560,16 @@ func Run(sc *Scenario) (res *Result) {
 		serverAddr = &net.TCPAddr{IP: net.IPv4(10, 1, 0, 1), Port: 7000}
 		decs := map[string]*refcodec.StreamDecoder{}
 		hintChecked := map[string]bool{}
+		var dmu sync.Mutex // the two directions of a connection write concurrently
 		snet.OnWrite = func(conn int, dir string, off int, b []byte) {
 			k := fmt.Sprintf("%d/%s", conn, dir)
+			dmu.Lock()
 			d := decs[k]
 			if d == nil {
 				d = &refcodec.StreamDecoder{Keys: refcodec.Keys3(ws.hashed, time.Now().Unix())}
 				decs[k] = d
 			}
+			dmu.Unlock()
 			if len(sc.Tampers) > 0 {
 				return // tampered streams are not decoded (regions come from a clean run)
 			}
@@ -575,8 +578,10 @@ func Run(sc *Scenario) (res *Result) {
 				ep = "S"
 			}
 			for i, seg := range d.Feed(b) {
+				dmu.Lock()
 				firstOfConn := !hintChecked[k]
 				hintChecked[k] = true
+				dmu.Unlock()
 				ws.mu.Lock()
 				e := ws.describe(ep, seg)
 				ws.mu.Unlock()
